@@ -7,6 +7,7 @@ import (
 	"go/token"
 	"go/types"
 	"regexp"
+	"sort"
 	"strings"
 
 	"golang.org/x/tools/go/packages"
@@ -1064,4 +1065,104 @@ func kernelLenDefs(info *types.Info, fd *ast.FuncDecl, o types.Object) []ast.Exp
 		return true
 	})
 	return res
+}
+
+// CROSSLAZY — a lazily reduced residue of one prime is not re-read as an integer under another prime.
+//
+// `SubRing.…Lazy` results lie in [0, 2q) (or more): fine as residues modulo q, wrong as the *integer* x mod q. The
+// division by the last modulus takes x_l = x mod q_l and transports it under every smaller prime
+// (`s.NTTLazy(buff, …)` for s over the lower sub-rings): x_l + q_l instead of x_l changes floor(x/q_l) by one. With the
+// standard transform the "lazy" inverse NTT happens to end on a full reduction; the conjugate-invariant one (and the
+// standard one below N = 16) does not, and DivFloorByLastModulusNTT was off by one for a quarter of the coefficients.
+//
+// Rule: within a function, a []uint64 row written by a method named …Lazy of a sub-ring expression A is not passed as
+// a source to a method of another sub-ring expression B (a different expression of type *SubRing) unless a non-lazy
+// method of A has written the same row in between (source order).
+func scanCrossLazy(c *core.Ctx) []ob {
+	var out []ob
+	n := 0
+	c.FuncDecls(func(pk *packages.Package, file *ast.File, fd *ast.FuncDecl) {
+		if fd.Body == nil || fileIsTestSupport(c.Program, fd.Pos()) || inExamples(pk) {
+			return
+		}
+		info := pk.TypesInfo
+		fkey := core.FuncKey(pk, fd)
+		isSubRing := func(e ast.Expr) bool {
+			nt := namedOf(info.TypeOf(e))
+			return nt != nil && nt.Obj().Name() == "SubRing"
+		}
+		type ev struct {
+			pos   token.Pos
+			recv  string
+			lazy  bool
+			dst   string
+			srcs  []string
+			call  *ast.CallExpr
+		}
+		var evs []ev
+		ast.Inspect(fd.Body, func(x ast.Node) bool {
+			call, ok := x.(*ast.CallExpr)
+			if !ok || len(call.Args) < 2 {
+				return true
+			}
+			se, ok := unparen(call.Fun).(*ast.SelectorExpr)
+			if !ok || !isSubRing(se.X) {
+				return true
+			}
+			e := ev{pos: call.Pos(), recv: exprString(se.X), lazy: strings.HasSuffix(se.Sel.Name, "Lazy"), call: call}
+			for i, a := range call.Args {
+				if _, ok := info.TypeOf(a).Underlying().(*types.Slice); !ok {
+					continue
+				}
+				if i == len(call.Args)-1 {
+					e.dst = exprString(a)
+				} else {
+					e.srcs = append(e.srcs, exprString(a))
+				}
+			}
+			if e.dst != "" {
+				evs = append(evs, e)
+			}
+			return true
+		})
+		if len(evs) < 2 {
+			return
+		}
+		sort.Slice(evs, func(i, j int) bool { return evs[i].pos < evs[j].pos })
+		lazyOf := map[string]string{} // row text -> sub-ring expression that left it lazily reduced
+		var bad *ev
+		var badOwner string
+		for i := range evs {
+			e := &evs[i]
+			for _, s := range e.srcs {
+				if owner, ok := lazyOf[s]; ok && owner != e.recv && bad == nil {
+					bad, badOwner = e, owner
+				}
+			}
+			if e.lazy {
+				lazyOf[e.dst] = e.recv
+			} else {
+				delete(lazyOf, e.dst)
+			}
+		}
+		n++
+		key := "CROSSLAZY:" + fkey
+		if bad != nil {
+			out = append(out, withProps(violOb("CROSSLAZY", key, c.Rel(bad.pos), fmt.Sprintf("%s passes a row that a …Lazy method of %s left in [0, 2q) to %s of the other sub-ring %s: as an integer the residue may be off by the modulus it was reduced under, and the transported value differs", fkey, badOwner, exprString(bad.call.Fun), bad.recv)), propsForKey(fkey)...))
+		} else {
+			out = append(out, withProps(okOb("CROSSLAZY", key, c.Rel(fd.Pos()), "no lazily reduced row of one sub-ring is read under another", true), propsForKey(fkey)...))
+		}
+	})
+	c.Stats["crosslazy_fns"] = n
+	return out
+}
+
+func init() {
+	core.Register(&core.Rule{Name: "CROSSLAZY", Props: []string{"C02", "C01", "C04", "C05", "C06"},
+		Doc: "within a function, a row written by a …Lazy method of one *SubRing expression is not passed as a source to a method of a different *SubRing expression unless a non-lazy method of the first has rewritten it in between",
+		Run: func(c *core.Ctx) []ob {
+			out := scanCrossLazy(c)
+			out = append(out, control(c, "CROSSLAZY", scanCrossLazy, "lvfixture.carryLast")...)
+			return out
+		}})
 }
